@@ -112,6 +112,9 @@ def finish(actors):
         fail = None
         if w.crash:
             fail = {"what": "a worker died on the write path: " + w.crash, "kind": "crash"}
+        elif getattr(w, "deadlock", None) and sent != expect:
+            fail = {"what": "the write path stops for good: " + w.deadlock + " (queued messages never reach the transport)",
+                    "kind": "deadlock", "sent": sent.hex()[:200], "expected": expect.hex()[:200]}
         elif sh.prefix_broken is not None or not expect.startswith(sent):
             fail = {"what": "bytes handed to the transport are not a prefix of the queued messages' encodings in queueing order",
                     "kind": "stream", "sent": sent.hex(), "expected": expect.hex(), "at_step": sh.prefix_broken}
